@@ -7,7 +7,7 @@ ALL = ["C%02d" % i for i in range(1, 19)]
 CHECKS = {
  "C01": dict(
    technique="TLA+ value oracle XtData (Expected / TomlReorder) model-checked for its laws with TLC; real translations with independent read-back validated by TLC against Trace_XtData",
-   text="TLC checks the laws of the value oracle on every small document shape; generated documents of the common data model are translated by the real library for all 16 pairs in several spellings, from slices and readers, explicit and detected; the output is decoded by readers independent of xt and TLC requires the recovered tree to equal Expected(input tree) (identity, or TomlReorder, or a refusal) and every spelling and supply mode to give the same bytes.",
+   text="TLC checks the laws of the value oracle on every small document shape; generated documents of the common data model are translated by the real library for all 16 pairs in several spellings, from slices and readers, explicit and detected; the output is decoded by readers independent of xt and TLC requires the recovered tree to equal Expected(input tree) (identity, or TomlReorder, or a refusal) and every spelling and supply mode to give the same bytes. A command-line stage replays TLC-enumerated argument vectors with several inputs of different formats against the XtCli model.",
    note="Leaves are compared as canonical payloads (decimal digits, binary64 bit patterns, UTF-8 bytes). Values are generated (boundary classes plus random), not enumerated; two recorded deviations are excused for their pinned classes.",
    design_ref="DESIGN.md 4.9, 6 (C01)"),
  "C06": dict(
@@ -77,14 +77,14 @@ CHECKS = {
    note="Frames are xt's own solo translations (the property's oracle). Generated histories, not exhaustive.",
    design_ref="DESIGN.md 4.3, 6 (C03)"),
  "C05": dict(
-   technique="TLA+ contract XtObs (lag rule at every read request); recorded read/write interleavings validated by TLC",
-   text="Streams of 10-120 documents are fed through packetising readers; at every read request of the real run TLC checks delivered - written <= 2 for JSON, MessagePack and YAML sources, explicit and detected.",
+   technique="TLA+ design model XtPipeline (lag for every packetisation, incl. the command line's buffered writer) model-checked with TLC and refined to the contract XtObs; recorded read/write interleavings of the library and of the real binaries (stdin and FIFO operands fed one document at a time) validated by TLC against XtObs",
+   text="TLC checks the streaming design for every packetisation (lag <= 2, behind the CLI's buffer at most Ceil(ob/fs) frames more). Streams of 10-120 documents are fed through packetising readers; at every read request of the real run TLC checks delivered - written <= 2 for JSON, MessagePack and YAML sources, explicit and detected. The debug and release binaries are fed 17 KB documents one at a time through standard input and through a FIFO operand while stdout is watched; each run is an XtObs history with a read record at every quiescent point (bound 3 = 2 + one frame in the 8 KiB stdout buffer).",
    note="Lag is checked at every read request of every recorded run; memory is a measured scalar (counting allocator) that spec/XtMem.tla bounds (peak <= 2 MiB + 100 x largest document; peak(4N) <= 1.25 peak(N) + 1 MiB) - the specification does not model allocation.",
    design_ref="DESIGN.md 4.3, 6 (C05)"),
  "C08": dict(
-   technique="TLA+ contract XtObs (TOML rules); recorded TOML-target histories validated by TLC",
+   technique="TLA+ contract XtObs (TOML rules) and value oracle XtData (TomlRefuses, EqUnordered); recorded TOML-target histories and read-back translations validated by TLC; command-line stage on the XtCli model (TomlOnce)",
    text="Histories on a TOML-target Translator (every root kind; null, oversized integer, non-string key, binary planted at random tree paths; 1-3 calls; 4 sources; slice/reader) are validated by TLC: at most one frame ever, nothing accepted for a refused or second document, success only for the first clean document.",
-   note="Read-back equality of the written document is covered by the value oracle of C01; here the frame is xt's solo translation.",
+   note="Read-back: documents TOML can hold and the same with one planted null / oversized integer / binary / non-string key / repeated key / non-table root are translated from all four formats; tomllib reads the output back and TLC requires equality with the input tree up to the order of table entries, a refusal where XtData!TomlRefuses says so, and nothing written for a refusal.",
    design_ref="DESIGN.md 4.3, 6 (C08)"),
  "C12": dict(
    technique="TLA+ contract XtObs (fault rules); fault-injected executions validated by TLC",
